@@ -145,6 +145,21 @@ def gen_jobs(ctx):
             if all(F(float(v)) == v for r in piece for v in r):
                 jobs.append(("shim.all_intersections", [enc_arr(parent), enc_arr(piece)], "isect"))
                 jobs.append(("shim.all_intersections", [enc_arr(piece), enc_arr(parent)], "isect"))
+    # two segments on one lattice line (the only way to the compiled parallel_lines_parameters): every relative position and
+    # both directions; here the PARAMETERS are compared as well (one division each in both configurations)
+    for _ in range(12 if ctx.quick() else 200):
+        while True:
+            d = (rng.randint(-3, 3), rng.randint(-3, 3))
+            if d != (0, 0):
+                break
+        p = (rng.randint(-4, 4), rng.randint(-4, 4))
+        a, b, c, e = [rng.randint(-4, 4) for _ in range(4)]
+        if a == b or c == e:
+            continue
+        seg = lambda u, v: [[F(p[0] + u * d[0]), F(p[0] + v * d[0])], [F(p[1] + u * d[1]), F(p[1] + v * d[1])]]
+        jobs.append(("shim.all_intersections", [enc_arr(seg(a, b)), enc_arr(seg(c, e))], "isect_num"))
+    # the branch of an opposite-direction overlap that starts before the first segment and ends inside it, pinned
+    jobs.append(("shim.all_intersections", [enc_arr([[F(0), F(4)], [F(0), F(8)]]), enc_arr([[F(3), F(-1)], [F(6), F(-2)]])], "isect_num"))
     return jobs
 
 
@@ -199,6 +214,16 @@ def compare(kind, pure, fast, args):
         nb = len(b[0][0]) if b[0] and b[0][0] else 0
         if na != nb or a[1] != b[1]:
             return "intersection count / coincident flag differ: %d,%s vs %d,%s" % (na, a[1], nb, b[1])
+        return None
+    if kind == "isect_num":
+        na = len(a[0][0]) if a[0] and a[0][0] else 0
+        nb = len(b[0][0]) if b[0] and b[0][0] else 0
+        if na != nb or a[1] != b[1]:
+            return "intersection count / coincident flag differ: %d,%s vs %d,%s" % (na, a[1], nb, b[1])
+        for ra, rb in zip(a[0] or [], b[0] or []):
+            for x, y in zip(ra, rb):
+                if abs(x - y) > 64 * U:
+                    return "parameters of collinear segments differ: %r vs %r" % (float(x), float(y))
         return None
     if kind == "len":
         # compute_length needs SciPy in the pure configuration (absent here): compared when both ran
